@@ -936,6 +936,11 @@ func (fl *Flow) literalFieldsInto(fs *FactSet, lhs, rhs ast.Expr) {
 		if cu := fl.m.calleeUnit(call); cu != nil {
 			if r := simpleReturn(cu); r != nil {
 				rhs = ast.Unparen(r)
+			} else if rs, ok := returnExprs(cu); ok && len(rs) == 1 {
+				// a helper that builds the value and returns it at one place (n4.grow()): only the
+				// constant fields of the literal are used below, and they do not depend on what
+				// the helper did before
+				rhs = ast.Unparen(rs[0])
 			}
 		}
 	}
